@@ -18,7 +18,7 @@ fn packet(c: u8, i: u8, body: &[u8]) -> Vec<u8> {
 
 pub fn run(ctx: &Ctx) -> i32 {
     let mut report = ctx.report("C15", "exploration");
-    report.rule = "17 reply enums x all 65536 (class,instruction) pairs x bodies {empty, a canonical body of every variant of the enum (so: valid for the target and valid for another variant), a whole packet of every variant as body (with and without an acknowledgement in front), canonical bodies of types outside the enum, random bytes, truncated}, each body inside a reply set also behind the extended length form FF lo hi; for pairs inside the reply set additionally many canonical and byte-mutated bodies. Oracle: independent reply-set table + the variant type's own decoder on the same bytes. Sequence level (the dispatch must not depend on what was received before): each of the 17 Sequence streams, after the acknowledgement and after every prefix of valid non-final replies of length <= 1 (thorough: <= 2), is sent a bare packet of every one of the 65536 control fields outside its reply set - it must yield exactly one error for it (after the prefix's items), end, and write nothing more (no acknowledgement: the packet was not mistaken for a reply). Enumeration is duplicate-free by construction (enum, control field, body index / stream, prefix, control field); non-trivial = every case (each has a definite expected outcome).".into();
+    report.rule = "17 reply enums x all 65536 (class,instruction) pairs x bodies {empty, a canonical body of every variant of the enum (so: valid for the target and valid for another variant), a whole packet of every variant as body (with and without an acknowledgement in front), canonical bodies of types outside the enum, random bytes, truncated}, each body inside a reply set also behind the extended length form FF lo hi; for pairs inside the reply set additionally many canonical and byte-mutated bodies. Oracle: independent reply-set table + the variant type's own decoder on the same bytes. Sequence level (the dispatch must not depend on what was received before): each of the 17 Sequence streams, after the acknowledgement and after every prefix of valid non-final replies of length <= 1 (thorough: <= 2), is sent a bare packet of every one of the 65536 control fields outside its reply set - it must yield exactly one error for it (after the prefix's items), end, and write nothing more (no acknowledgement: the packet was not mistaken for a reply), having consumed exactly that packet (for the classes 04/06/80/84 and a stride of the others the packet comes in the extended length form with a body that looks like a final reply); likewise every control field other than 80 00 in place of the acknowledgement, with the regular script queued behind it. Enumeration is duplicate-free by construction (enum, control field, body index / stream, prefix, control field); non-trivial = every case (each has a definite expected outcome).".into();
     report.exhaustive = Some(true);
     report.assumptions = vec![
         "reply sets of DESIGN Appendix B (refcodec::tables) are the specification".into(),
@@ -217,6 +217,7 @@ fn sequence_level(ctx: &Ctx, report: &mut refcodec::evidence::Report, schema: &r
     let pools = Pools::build(schema, ctx.seed, 4);
     let depth = ctx.by(1usize, 2usize);
     long_replies(ctx, report, schema);
+    ack_position_sweep(ctx, report, schema, "C15");
     let threads = ctx.threads;
     let seed = ctx.seed;
     // work items: (stream, prefix)
@@ -249,7 +250,11 @@ fn sequence_level(ctx: &Ctx, report: &mut refcodec::evidence::Report, schema: &r
                     continue;
                 }
                 let mut es = entries.clone();
-                es.push(Entry { bytes: vec![c, i, 0], gate: gate_x });
+                // mostly the bare packet; for the classes a terminal really uses and a stride of the others, the packet in
+                // the extended length form with a body that looks like a final reply
+                let x: Vec<u8> = if matches!(c, 0x04 | 0x06 | 0x80 | 0x84) && i % 3 == 0 || cf % 97 == 0 { vec![c, i, 0xff, 0x03, 0x00, 0x06, 0x0f, 0x00] } else { vec![c, i, 0] };
+                let bytes_due: usize = entries.iter().map(|e| e.bytes.len()).sum::<usize>() + x.len();
+                es.push(Entry { bytes: x.clone(), gate: gate_x });
                 let term = Term::new(Script::new(es));
                 term.0.lock().unwrap().record_payloads = false;
                 r.case_enumerated(true);
@@ -260,7 +265,8 @@ fn sequence_level(ctx: &Ctx, report: &mut refcodec::evidence::Report, schema: &r
                 let errs = st.log.iter().filter(|e| matches!(e, Ev::Yield { ok: false, .. })).count();
                 let ended = matches!(st.log.last(), Some(Ev::End));
                 let written = st.written;
-                let case = || json!({"kind": "sequence-level", "stream": sd.name, "command": hex(&cmd[..cmd.len().min(40)]), "valid_replies_before": prefix, "then_packet": hex(&[c, i, 0]), "yielded_ok": oks, "yielded_err": errs, "ended": ended, "bytes_written": written, "bytes_expected_written": expected_written});
+                let delivered = st.delivered;
+                let case = || json!({"kind": "sequence-level", "stream": sd.name, "command": hex(&cmd[..cmd.len().min(40)]), "valid_replies_before": prefix, "then_packet": hex(&x), "bytes_delivered": delivered, "bytes_due": bytes_due, "yielded_ok": oks, "yielded_err": errs, "ended": ended, "bytes_written": written, "bytes_expected_written": expected_written});
                 match res {
                     Err(p) if p.starts_with("PANIC") => {
                         r.violation(&format!("{} stream {}", sd.name, panic_signature(&p)), &format!("after {prefix:?} the packet {:02x}{:02x}00 made the stream panic: {p}", c, i), case());
@@ -278,10 +284,12 @@ fn sequence_level(ctx: &Ctx, report: &mut refcodec::evidence::Report, schema: &r
                 }
                 if written > expected_written {
                     r.violation(&format!("{} stream: a packet outside the reply set is answered (taken for a reply)", sd.name), &format!("after {prefix:?} the packet {:02x}{:02x}00 is outside the reply set of {}, but the client wrote {} more bytes after it", c, i, sd.replies, written - expected_written), case());
+                } else if errs == 1 && ended && delivered != bytes_due {
+                    r.violation(&format!("{} stream: a rejected packet is not consumed exactly (its bytes stay in / are taken from the connection)", sd.name), &format!("after {prefix:?} the packet {} was rejected, but {delivered} bytes were taken from the connection where {bytes_due} were sent", hex(&x)), case());
                 } else if errs != 1 || !ended || oks != prefix.len() {
                     r.violation(&format!("{} stream: a packet outside the reply set does not end the stream with exactly one error", sd.name), &format!("after {prefix:?} the packet {:02x}{:02x}00: {oks} items, {errs} errors, ended={ended}", c, i), case());
                 } else if r.wants_sample() && cf % 4099 < threads as u32 {
-                    r.sample(json!({"stream": sd.name, "valid_replies_before": prefix, "then_packet": hex(&[c, i, 0]), "observed": format!("{oks} items, 1 error, end; nothing written after it")}));
+                    r.sample(json!({"stream": sd.name, "valid_replies_before": prefix, "then_packet": hex(&x), "observed": format!("{oks} items, 1 error, end; nothing written after it")}));
                 }
             }
         }
@@ -394,6 +402,69 @@ fn long_replies(ctx: &Ctx, report: &mut refcodec::evidence::Report, schema: &ref
                 }
                 if found > 0 {
                     r.note("variants_with_long_replies", &format!("{}::{variant}", sd.replies));
+                }
+            }
+        }
+    });
+}
+
+
+/// In place of the acknowledgement: every control field other than 80 00 (bare packet), with the regular script (an
+/// acknowledgement and a final reply) queued right behind it.  Exactly one error, no item, nothing written after the
+/// command, and nothing read beyond that packet.  (Shared by C06 and C15.)
+pub fn ack_position_sweep(ctx: &Ctx, report: &mut refcodec::evidence::Report, schema: &refcodec::layout::Schema, id: &str) {
+    use crate::script::{Entry, Ev, Script, Term};
+    use crate::seq::{command_for, run_stream, variant_key, Pools, ACK};
+    use refcodec::tables::STREAMS;
+    let pools = Pools::build(schema, ctx.seed ^ 0xacc, 3);
+    let threads = ctx.threads;
+    let seed = ctx.seed;
+    sharded(report, threads, |shard, r| {
+        let mut rng = Rng::derive(seed, 0xACC_0000 + shard as u64);
+        for sd in STREAMS.iter().filter(|s| s.name != "feig::WriteFile") {
+            let cmd = command_for(schema, &pools, &mut rng, sd);
+            let final_variant = sd.finals.first().copied().unwrap_or_else(|| refcodec::tables::reply_enum(sd.replies).variants[0].0);
+            let mut carry_on = ACK.to_vec();
+            carry_on.extend(pools.pick(&mut rng, variant_key(sd, final_variant)).0.iter());
+            let mut cf = shard as u32;
+            while cf < 65536 {
+                let (c, i) = ((cf >> 8) as u8, cf as u8);
+                cf += threads as u32;
+                if (c, i) == (0x80, 0x00) {
+                    continue;
+                }
+                let term = Term::new(Script::new(vec![Entry { bytes: vec![c, i, 0], gate: cmd.len() }, Entry { bytes: carry_on.clone(), gate: cmd.len() }]));
+                term.0.lock().unwrap().record_payloads = false;
+                r.case_enumerated(true);
+                r.count("ack_position_cases", 1);
+                let res = run_stream(sd.name, &cmd, &term, None);
+                let st = term.0.lock().unwrap();
+                let oks = st.log.iter().filter(|e| matches!(e, Ev::Yield { ok: true, .. })).count();
+                let errs = st.log.iter().filter(|e| matches!(e, Ev::Yield { ok: false, .. })).count();
+                let ended = matches!(st.log.last(), Some(Ev::End));
+                let (written, delivered) = (st.written, st.delivered);
+                let case = || json!({"kind": "ack-position", "stream": sd.name, "command": hex(&cmd[..cmd.len().min(40)]), "in_place_of_the_acknowledgement": hex(&[c, i, 0]), "queued_behind": hex(&carry_on[..carry_on.len().min(24)]), "yielded_ok": oks, "yielded_err": errs, "ended": ended, "bytes_written": written, "command_len": cmd.len(), "bytes_delivered": delivered});
+                match res {
+                    Err(p) if p.starts_with("PANIC") => {
+                        r.violation(&format!("{id} {} stream {}", sd.name, panic_signature(&p)), &p, case());
+                        continue;
+                    }
+                    Err(p) => {
+                        r.inconclusive(&format!("{id} acknowledgement sweep: {p}"));
+                        return;
+                    }
+                    Ok(false) => {
+                        r.inconclusive("harness poll guard fired");
+                        return;
+                    }
+                    Ok(true) => {}
+                }
+                if written > cmd.len() || oks > 0 {
+                    r.violation(&format!("{id} {} stream: a packet other than 80 00 is taken for the acknowledgement", sd.name), &format!("{:02x}{:02x}00 in place of the acknowledgement: the exchange carried on ({oks} items, {} bytes written after the command)", c, i, written - cmd.len().min(written)), case());
+                } else if errs != 1 || !ended {
+                    r.violation(&format!("{id} {} stream: anything but a positive acknowledgement must yield exactly one error", sd.name), &format!("{:02x}{:02x}00 in place of the acknowledgement: {errs} errors, ended={ended}", c, i), case());
+                } else if delivered != 3 {
+                    r.violation(&format!("{id} {} stream: reads beyond the packet that failed the exchange", sd.name), &format!("{:02x}{:02x}00 in place of the acknowledgement: {delivered} bytes taken from the connection", c, i), case());
                 }
             }
         }
